@@ -7,7 +7,12 @@ property's own oracle.  Abstract argument indices are mapped onto what the file 
 Generated files (vf/c10_writers.py): a deterministic small sample of the images the writers of the other properties'
 specifications emit (ElfImage: several sections under one name; LineProgram: DW_LNE_define_file, two-unit sections; DieTree:
 units of mixed contexts; LocRange: DWARF5 list sections with offset tables and DW_FORM_loclistx / DW_FORM_rnglistx; SymHash;
-thorough: Dynamic, Notes, versions) - every one gets the catalogue, the systematic patterns and a few simulated histories."""
+thorough: Dynamic, Notes, versions; spec/ApiTypes.tla: .debug_types sections in which several units bear one signature; CFI: a
+.debug_frame and an .eh_frame section in one file) - every one gets the catalogue, the systematic patterns and a few simulated histories.
+
+Memo pairs (Api.tla PP / PQ: two calls of one family - A, B, A - and a generator started after a query of its family) run on every
+file; PAIRS_ONLY_QUICK lists small corpus files that the quick tier uses for those patterns alone (files with both kinds of call-frame
+section, with .debug_types, with .debug_pubnames and .debug_pubtypes, with notes in sections and segments)."""
 import io
 import os
 
@@ -32,6 +37,9 @@ INDEX_FORMS = [('DW_FORM_rnglistx',), ('DW_FORM_loclistx',), ('DW_FORM_addrx', '
                ('DW_FORM_strx', 'DW_FORM_strx1', 'DW_FORM_strx2', 'DW_FORM_strx3', 'DW_FORM_strx4')]
 # small files that the quick tier uses only for the held-container patterns (a RELR table, as a section and behind DT_RELR)
 HELD_ONLY_QUICK = ['test/testfiles_for_unittests/lib_relro.so.elf']
+# small files that the quick tier uses only for the memo-pair patterns (PP / PQ and the other query-first patterns)
+PAIRS_ONLY_QUICK = ['test/testfiles_for_readelf/gcc48-simple.o', 'test/testfiles_for_unittests/simple_mipsel.elf',
+                    'test/testfiles_for_unittests/dwarf_debug_types.elf', 'test/testfiles_for_readelf/struct-bitfield-packed.elf']
 HELD_NAMES = ('held_iter', 'held_count', 'held_get', 'held_first', 'held_list')
 # container classes in the order in which a file's containers are numbered (Api.tla: held container a): rare ones first
 HELD_RANK = ['RelrRelocationSection', 'RelrRelocationTable', 'GNUVerDefSection', 'GNUVerNeedSection', 'GNUVerSymSection',
@@ -45,7 +53,7 @@ MORE_FILES = ['test/testfiles_for_readelf/penalty_32_gcc.o.elf', 'test/testfiles
 
 QUICK_QUERIES = ('section_data', 'string_at', 'section_by_name', 'symbol_by_name', 'dyn_tag', 'die_at', 'parent', 'children', 'line_program', 'eh_cfi', 'decoded',
                  'loc_of_die', 'ranges_of_die', 'versions', 'hash_lookup', 'attributes', 'ehabi', 'aranges', 'dwarf_again',
-                 'name_lookup', 'indexed_die', 'line_tables')
+                 'name_lookup', 'indexed_die', 'line_tables', 'tu_by_sig')
 CAP = 40          # items compared per generator
 
 
@@ -85,6 +93,10 @@ def _die(d):
 
 def _cu(c):
     return None if c is None else (c.cu_offset, c.cu_die_offset, _c(c.header))
+
+
+def _tu(t):
+    return None if t is None else (t.tu_offset, t.tu_die_offset, _c(t.header), _die(t.get_top_DIE()))
 
 
 def _cfi_entry(e):
@@ -259,6 +271,7 @@ def catalogue(data):
     cat['datasecs'] = order[:36]
     cat['dyn'] = [i for i, s in enumerate(secs) if type(s).__name__ == 'DynamicSection']
     cat['notes'] = [i for i, s in enumerate(secs) if type(s).__name__ == 'NoteSection']
+    cat['notesegs'] = [i for i, s in enumerate(ef.iter_segments()) if type(s).__name__ == 'NoteSegment']
     cat['relocs'] = [i for i, s in enumerate(secs) if type(s).__name__ in ('RelocationSection', 'RelrRelocationSection')]
     cat['attrs'] = [i for i, s in enumerate(secs) if type(s).__name__ in ('ARMAttributesSection', 'RISCVAttributesSection')]
     cat['vers'] = [i for i, s in enumerate(secs) if type(s).__name__ in ('GNUVerDefSection', 'GNUVerNeedSection', 'GNUVerSymSection')]
@@ -269,6 +282,20 @@ def catalogue(data):
     cat['locdies'] = {}
     cat['xdies'] = []
     cat['ncfi'] = cat['nehcfi'] = 0
+    cat['sigs'] = []
+    if w.di and w.di.debug_types_sec is not None:
+        # type signatures (Api.tla: tu_by_sig, a): those SEVERAL units bear first, then the others in section order, then one no unit has
+        try:
+            allsigs = [tu['signature'] for tu in w.di.iter_TUs()][:4096]
+        except Exception:                               # noqa: a section the library cannot walk is the walk's business (C04)
+            allsigs = []
+        first = [x for i, x in enumerate(allsigs) if x not in allsigs[:i]]
+        dups = [x for x in first if allsigs.count(x) > 1]
+        missing = 0x0123456789abcdef
+        while missing in allsigs:
+            missing += 1
+        cat['sigs'] = (dups + [x for x in first if x not in dups])[:6] + [missing] if allsigs else []
+        cat['dupsigs'] = len(dups)
     if w.di:
         for cu in w.di.iter_CUs():
             cat['cus'].append(cu.cu_offset)
@@ -278,7 +305,8 @@ def catalogue(data):
                     offs.append(d.offset)
                     if not d.is_null():
                         for k, a in d.attributes.items():
-                            if a.form in ('DW_FORM_ref4', 'DW_FORM_ref_addr', 'DW_FORM_ref_udata', 'DW_FORM_ref1', 'DW_FORM_ref2', 'DW_FORM_ref8'):
+                            if a.form in ('DW_FORM_ref4', 'DW_FORM_ref_addr', 'DW_FORM_ref_udata', 'DW_FORM_ref1', 'DW_FORM_ref2', 'DW_FORM_ref8',
+                                          'DW_FORM_ref_sig8'):
                                 refs.append((d.offset, k))
                                 break
                         if 'DW_AT_location' in d.attributes or 'DW_AT_ranges' in d.attributes:
@@ -432,6 +460,13 @@ def _answer(w, name, a, b):
         return (n, None if e is None else _c({k: v for k, v in vars(e).items()}))
     if name == 'has_dwarf':
         return (ef.has_dwarf_info(), ef.has_dwarf_info(strict=True))
+    if name == 'notes':
+        # b even: the notes of the a-th SHT_NOTE section, b odd: those of the a-th PT_NOTE segment
+        lst = cat['notes'] if b % 2 == 0 else cat['notesegs']
+        if not lst:
+            return None
+        owner = ef.get_section(lst[a % len(lst)]) if b % 2 == 0 else ef.get_segment(lst[a % len(lst)])
+        return tuple((n['n_name'], n['n_type'], n['n_offset'], n['n_size'], _c(n['n_desc'])) for n in owner.iter_notes())[:CAP]
     if name in HELD_NAMES:
         obj, info = _held(w, a)
         if obj is None:
@@ -473,6 +508,29 @@ def _answer(w, name, a, b):
     di = w.di
     if not di:
         return None
+    if name == 'tu_by_sig':
+        if not cat['sigs']:
+            return None
+        sig = cat['sigs'][a % len(cat['sigs'])]
+        return ('tu', _tu(di.get_TU_by_sig8(sig))) if b % 2 == 0 else ('die', _die(di.get_DIE_by_sig8(sig)))
+    if name == 'tu_list':
+        if di.debug_types_sec is None:
+            return None
+        n = 0
+        out = []
+        for t in di.iter_TUs():                         # a complete pass; the first CAP units are compared, and the count
+            if n < CAP:
+                out.append(_tu(t))
+            n += 1
+        return (n, tuple(out))
+    if name == 'cu_list':
+        n = 0
+        out = []
+        for c in di.iter_CUs():
+            if n < CAP:
+                out.append(_cu(c))
+            n += 1
+        return (n, tuple(out))
     if name == 'cu_at':
         off = _pick(cat['cus'], a * 6 + b, 1)
         return None if off is None else _cu(di.get_CU_at(off))
@@ -535,8 +593,8 @@ def _answer(w, name, a, b):
             return None
         ents = lp.get_entries()
         return (len(ents), tuple(_lp_entry(e) for e in ents[b * 17:b * 17 + 12]), _c(lp.header.get('file_entry', []))[:8])
-    if name in ('cfi', 'eh_cfi', 'decoded'):
-        if name == 'cfi':
+    if name in ('cfi', 'eh_cfi', 'decoded', 'cfi_decoded'):
+        if name in ('cfi', 'cfi_decoded'):
             if not di.has_CFI():
                 return None
             ents = di.CFI_entries()
@@ -547,7 +605,7 @@ def _answer(w, name, a, b):
         if not ents:
             return 0
         e = ents[(a * 6 + b) * 5 % len(ents)]
-        if name == 'decoded' and hasattr(e, 'get_decoded'):
+        if name in ('decoded', 'cfi_decoded') and hasattr(e, 'get_decoded'):
             d = e.get_decoded()
             return (len(ents), tuple(_c(r) for r in d.table), tuple(d.reg_order))
         return (len(ents), _cfi_entry(e))
@@ -568,8 +626,8 @@ def _answer(w, name, a, b):
             return None
         e = ar.entries[(a * 6 + b) % len(ar.entries)]
         return (ar.cu_offset_at_addr(e.begin_addr), ar.cu_offset_at_addr(e.begin_addr + e.length), _c(e))
-    if name == 'pubnames':
-        pn = di.get_pubnames()
+    if name in ('pubnames', 'pubtypes'):
+        pn = di.get_pubnames() if name == 'pubnames' else di.get_pubtypes()
         if pn is None:
             return None
         keys = list(pn.keys())
@@ -639,6 +697,8 @@ def start(w, kind, a, b):
         return iter(())
     if kind == 'iter_CUs':
         return (_cu(c) for c in di.iter_CUs())
+    if kind == 'iter_TUs':
+        return iter(()) if di.debug_types_sec is None else (_tu(t) for t in di.iter_TUs())
     if kind == 'iter_DIEs':
         off = _pick(cat['cus'], a * 6 + b, 1)
         return iter(()) if off is None else (_die(d) for d in di.get_CU_at(off).iter_DIEs())
@@ -688,6 +748,13 @@ def _take(it, k):
         return ('exc', type(ex).__name__)
 
 
+def _is_pair(p):
+    """The query-first patterns: A, B, A (Api.tla PP; P4 with a query in between) and a query followed by a generator (PQ, PW)."""
+    if p[0]['op'] != 'query' or len(p) < 3:
+        return False
+    return p[1]['op'] == 'start' or (len(p) == 3 and p[1]['op'] == 'query' and p[0] == p[2])
+
+
 class _Ledger:
     """What one file's replay reports back to the parent process (a stand-in for core.Run inside a worker)."""
 
@@ -732,7 +799,8 @@ def histories(run, generation=None):
         raise core.MachineryError('Api simulation produced only %d histories' % nh)
     pres = run.tlc('Api', 'Api_patterns', workers=2)
     run.extra['api_patterns'] = sum(1 for _ in run.cases(pres.out))
-    files = QUICK_FILES + HELD_ONLY_QUICK if run.tier == 'quick' else QUICK_FILES + MORE_FILES
+    files = QUICK_FILES + HELD_ONLY_QUICK + PAIRS_ONLY_QUICK if run.tier == 'quick' else \
+        QUICK_FILES + MORE_FILES + [f for f in PAIRS_ONLY_QUICK if f not in MORE_FILES]
     import time as _t
     _t0 = _t.time()
     gfiles, gstats = generation.finish()               # the writers' images (their TLC runs were started at the beginning of the check)
@@ -741,7 +809,7 @@ def histories(run, generation=None):
     from multiprocessing import Pool
     # the simulated histories are dealt out among the files that replay histories (quick: not the patterns-only files)
     tix = 0 if run.tier == 'quick' else 1
-    takers = [rel for rel in files if not (LISTS_ONLY.get(rel, (None, None))[tix] is not None or (run.tier == 'quick' and rel in HELD_ONLY_QUICK))]
+    takers = [rel for rel in files if not (LISTS_ONLY.get(rel, (None, None))[tix] is not None or (run.tier == 'quick' and rel in HELD_ONLY_QUICK + PAIRS_ONLY_QUICK))]
     jobs = [(rel, fi, len(files), run.tier, res.out, pres.out, (takers.index(rel), len(takers)) if rel in takers else None)
             for fi, rel in enumerate(files)]
     # generated file k: the patterns, and 3 (quick) / 60 (thorough) of the simulated histories
@@ -836,11 +904,27 @@ def _replay_file(run, rel, fi, nfiles, hists, patterns, share=None, gpath=None):
             cls = (st['name'], core.digest(repr(truth_g[(st['name'], st['a'], st['b'])] if st['op'] == 'start' else
                                                  truth_q[(st['name'], st['a'], st['b'])])),
                    tuple((o['op'], o['name'] if o['op'] != 'advance' else '', o['g'], o['w'],
+                          # (pair patterns: the other call by what it finds in this file, not by its abstract arguments)
+                          core.digest(repr(fresh_answer(o['name'], o['a'], o['b']))) if o['op'] == 'query' and _is_pair(p) else
                           (o['a'], o['b']) if o['op'] in ('query', 'start') else None) for o in p[1:]))
             if cls in seenp:
                 continue
             held = all(o['name'] in HELD_NAMES for o in p if o['op'] in ('query', 'start', 'advance'))
             if run.tier == 'quick' and rel in HELD_ONLY_QUICK and not held:
+                continue
+            pair = _is_pair(p)
+            p4 = pair and len(p) == 3 and (p[1]['name'], p[1]['a'], p[1]['b']) in (('section_by_name', 1, 1), ('die_at', 0, 1))   # (P4's two)
+            # A, B, A with the two diagonal argument pairs of either call (thorough, on the small pair files: all sixteen combinations)
+            if (run.tier == 'quick' or rel not in PAIRS_ONLY_QUICK) and pair and len(p) == 3 and not p4 and (p[0]['a'] != p[0]['b'] or p[1]['a'] != p[1]['b']):
+                continue
+            if run.tier == 'quick' and rel in PAIRS_ONLY_QUICK and (not pair or p4):
+                continue
+            # a lookup by type signature between two next() calls: only where there are type units
+            if run.tier == 'quick' and not cat['sigs'] and not pair and any(o['name'] == 'tu_by_sig' for o in p):
+                continue
+            # a pair pattern whose other call finds nothing in this file is the first call asked twice (P4 has that)
+            if pair and (fresh_answer(p[1]['name'], p[1]['a'], p[1]['b']) is None if p[1]['op'] == 'query' else
+                         fresh_item(p[1]['name'], p[1]['a'], p[1]['b'], 0) in (('stop',), None)):
                 continue
             only = LISTS_ONLY.get(rel, (None, None))[0 if run.tier == 'quick' else 1]
             if only is not None:
